@@ -10,6 +10,7 @@ def run(cx):
     exits_of(cx, 'EXITS', ['io.FCSData.__array_finalize__', 'io.FCSData.__reduce__', 'io.FCSData.__setstate__', 'io.FCSFile.__eq__', 'io.FCSFile.__ne__', 'io.FCSFile.__hash__'])
     from . import io_segments
     io_segments.owned_events(cx)
+    io_segments.sample_events(cx, "OWNED")
     # two loads are independent of each other and of earlier loads: the reader keeps no module-level state
     from . import mef_rules
     mef_rules.no_module_state(cx, ('io',))
